@@ -316,7 +316,8 @@ theorem pushes_outside_transactions :
       ("handlers/start_stage/handler.py", "StartStageHandler._start_if_ready", 6),
       ("handlers/start_stage/handler.py", "StartStageHandler._start_if_ready", 8),
       ("handlers/start_stage/orchestration.py", "StartStageOrchestrationMixin._cancel_deferred_choice_siblings", 0),
-      ("handlers/start_workflow.py", "StartWorkflowHandler._handle_with_retry.on_execution", 0) ] := by
+      ("handlers/start_workflow.py", "StartWorkflowHandler._handle_with_retry.on_execution", 0),
+      ("handlers/start_workflow.py", "StartWorkflowHandler._handle_with_retry.on_execution", 1) ] := by
   decide
 
 /-! ### non-vacuity -/
